@@ -495,6 +495,9 @@ fn check_iter(pre: &Snapshot, post: &Snapshot, spec: &IterSpec, tr: &IterTrace, 
             3 => ("nth_back(1)", if rest.len() >= 2 { rest.get(rest.len() - 2).map(proj) } else { None }, Some(rest.len().saturating_sub(2))),
             4 => ("rev().next()", rest.last().map(proj), None),
             5 => ("a for loop over the remainder", rest.last().map(proj), Some(rest.len())),
+            6 => ("rfold over the remainder", rest.first().map(proj), Some(rest.len())),
+            7 => ("step_by(2) over the remainder", if rest.is_empty() { None } else { rest.get((rest.len() - 1) / 2 * 2).map(proj) }, Some((rest.len() + 1) / 2)),
+            8 => ("skip(1).next() then count()", rest.get(1).map(proj), Some(rest.len().saturating_sub(2))),
             _ => ("", None, None),
         };
         if spec.fin != 0 {
